@@ -301,7 +301,7 @@ def check_edit(case, acc=None):
     # 'refarg': the instance is built WITHOUT the profile (its elements carry the standard structure) and judged by
     # Validator.validate(message, reference=profile structure); cardinality edits only (the elements keep standard datatypes)
     refarg = route == 'refarg' and kind in ('require', 'max1', 'max2', 'forbid')
-    if route == 'refarg':
+    if route in ('refarg', 'parse-flat'):
         route = 'api'
     if kind == 'restate':
         prof = {m: copy_ref(std)}
@@ -342,6 +342,26 @@ def check_edit(case, acc=None):
     # a segment capped at 1 inside a group makes the group finder open a new group repetition when it recurs: the tree the
     # parser builds is then another (legal) one, so nothing is asserted about that text
     regrouped = kind == 'max1' and site['level'] == 'segment' and bool(site['groups']) and route != 'api'
+    if case['route'] == 'parse-flat':
+        # group finding switched off: the segments hang under the message, but they are still the profile's segments
+        # (a segment named at several places of the structure has no single description to be parsed with)
+        if kind != 'datatype' or site['count'] == 0 or any(site['multis']) or T.name_places(std).get(site['seg'], 0) != 1:
+            case['_skipped'] = True
+            return []
+        from hl7apy import parser as P
+        try:
+            flat = P.parse_message('\r'.join(lines), validation_level=TOL, find_groups=False, message_profile=prof)
+        except Exception as e:
+            return [('C18-build-raises:parse-flat:%s:%s' % (kind, type(e).__name__), '%s: %s' % (desc0(v, m, kind, site), _exc(e)))]
+        case['_site'] = (site['level'], bool(site['groups']), kind)
+        for seg in [c for c in flat.children if c.name == site['seg']]:
+            holders = [seg] if site['level'] == 'field' else [f for f in seg.children if f.name == site['field']]
+            for holder in holders:
+                for el in [c for c in holder.children if c.name == name]:
+                    if el.datatype != newdt and not (T.is_base(v, newdt) and el.datatype is None):
+                        return [('C18-parsed-child-ignores-profile-datatype:%s:parse-flat' % site['level'],
+                                 '%s, find_groups=False -> element has datatype %r, profile says %r' % (desc0(v, m, kind, site), el.datatype, newdt))]
+        return []
     if refarg:
         try:
             msg = build(v, m, tree, lines, 'api', level, None)
@@ -460,7 +480,7 @@ def cases(draw, cells):
     tree = draw(G.instances(v, m, mode=mode, unique=True))
     lines = draw(G.instance_lines(v, m, tree, R.full(R.DEFAULT_EC), conforming=True, p_opt=draw(st.sampled_from([1, 2, 3]))))
     eligible = G.eligible(v, m, tree)
-    route = draw(st.sampled_from(['api', 'parse', 'value', 'refarg'] if eligible else ['api', 'api', 'refarg']))
+    route = draw(st.sampled_from(['api', 'parse', 'value', 'refarg', 'parse-flat'] if eligible else ['api', 'api', 'refarg', 'parse-flat']))
     return {'kind': draw(st.sampled_from(KINDS)), 'v': v, 'm': m, 'tree': tree, 'lines': lines, 'route': route,
             'level': draw(st.sampled_from([TOL, TOL, STRICT])), 'pick': draw(st.integers(0, 5000))}
 
